@@ -75,12 +75,80 @@ Lemma Gen_fatal_sites :
    ("locRootPath", "log.Panicf")].
 Proof. vm_compute. reflexivity. Qed.
 
+(* The FAULT POINTS.  [gen_fs_call_sites] lists every call of a filesys.FileSystem method on an fSys
+   receiver in the localizer and in the loader code it runs through (translate/localize.go, source
+   order).  [model_fs_sites] says, site by site, which definition of Fs/Localize.v issues the
+   corresponding effect — or why the site lies outside the model (remote references only).  The
+   obligation: the two tables agree site for site, so a call added to or removed from the source
+   breaks it.  [run] numbers the effects a program issues and [fault] fails exactly one of them:
+   every in-model call site is a fault point and every fault point is one of these call sites. *)
+Definition model_fs_sites : list (string * string * string * string) :=
+  [("util.go", "createNewDir", "Exists", "prelude_checks");
+   ("util.go", "createNewDir", "Mkdir", "prelude_create");
+   ("util.go", "createNewDir", "RemoveAll", "prelude_create");
+   ("util.go", "cleanedRelativePath", "CleanedAbs", "cleaned_relative_path");
+   ("localizer.go", "Run", "RemoveAll", "localize_tail (deferred recover: cleanup on panic)");
+   ("localizer.go", "Run", "MkdirAll", "localize_tail");
+   ("localizer.go", "Run", "RemoveAll", "localize_tail");
+   ("localizer.go", "Run", "RemoveAll", "localize_tail");
+   ("localizer.go", "localize", "WriteFile", "localize");
+   ("localizer.go", "localizeFileWithContent", "Exists", "outside: remote file");
+   ("localizer.go", "localizeFileWithContent", "MkdirAll", "loc_file_with_content");
+   ("localizer.go", "localizeFileWithContent", "WriteFile", "loc_file_with_content");
+   ("localizer.go", "localizeRoot", "Exists", "outside: remote root");
+   ("localizer.go", "localizeRoot", "MkdirAll", "localize");
+   ("localizer.go", "copyChartHome", "Exists", "copy_chart_home");
+   ("localizer.go", "copyChartHome", "Exists", "copy_chart_home");
+   ("localizer.go", "copyDir", "Walk", "copy_dir");
+   ("localizer.go", "copyDir", "MkdirAll", "copy_entries");
+   ("localizer.go", "copyDir", "ReadFile", "copy_entries");
+   ("localizer.go", "copyDir", "WriteFile", "copy_entries");
+   ("fileloader.go", "newLoaderAtGitClone", "CleanedAbs", "outside: remote root");
+   ("fileloader.go", "Load", "ReadFile", "ldr_load");
+   ("loadrestrictions.go", "RestrictionRootOnly", "CleanedAbs", "ldr_load");
+   ("filesystem.go", "ConfirmDir", "CleanedAbs", "confirm_dir")].
+
+Lemma Gen_fs_call_sites :
+  List.map fst model_fs_sites = gen_fs_call_sites.
+Proof. vm_compute. reflexivity. Qed.
+
+(* the effect signature is exactly the set of methods called at the in-model sites *)
+Definition opcode_name (o : opcode) : string :=
+  match o with
+  | OExists => "Exists" | OMkdir => "Mkdir" | OMkdirAll => "MkdirAll" | OCleanedAbs => "CleanedAbs"
+  | OReadFile => "ReadFile" | OWriteFile => "WriteFile" | ORemoveAll => "RemoveAll" | OWalk => "Walk"
+  end.
+Definition all_opcodes : list opcode :=
+  [OExists; OMkdir; OMkdirAll; OCleanedAbs; OReadFile; OWriteFile; ORemoveAll; OWalk].
+Lemma all_opcodes_complete o : In o all_opcodes.
+Proof. destruct o; cbn; tauto. Qed.
+
+Definition in_model_methods : list string :=
+  List.map (fun t => snd (fst t))
+           (filter (fun t => negb (has_prefix "outside" (snd t))) model_fs_sites).
+
+Lemma Gen_fault_points :
+  (* every in-model call site calls a method of the effect signature … *)
+  forallb (fun m => existsb (fun o => String.eqb (opcode_name o) m) all_opcodes) in_model_methods = true /\
+  (* … and every effect of the signature is called at some in-model site *)
+  forallb (fun o => existsb (String.eqb (opcode_name o)) in_model_methods) all_opcodes = true.
+Proof. vm_compute. split; reflexivity. Qed.
+
 (* ------------------------------------------------------------------ interpreter *)
 
 Lemma run_op {A} ch fault (e : eff) (k : eres -> prog A) w :
   (forall c, e <> EChoose c) ->
   run ch fault (Op e k) w = let '(w', r) := step_world fault e w in run ch fault (k r) w'.
 Proof. destruct e; intros H; try reflexivity. exfalso; eapply H; eauto. Qed.
+
+Lemma every_call_faultable (e : eff) (w : world) :
+  (forall c, e <> EChoose c) ->
+  step_world (Some (w_n w)) e w =
+  (mkW (w_fs w) (S (w_n w)) (mkEv (eff_op e) (eff_path e) (res_ok (fail_res e)) :: w_trace w), fail_res e).
+Proof.
+  intros H. unfold step_world, fault_hit. rewrite Nat.eqb_refl.
+  destruct e; try reflexivity. exfalso; eapply H; eauto.
+Qed.
 
 Lemma run_choose {A} ch fault cands (k : eres -> prog A) w :
   run ch fault (Op (EChoose cands) k) w = run ch fault (k (RPick (ch (w_trace w) cands))) w.
@@ -107,6 +175,21 @@ Lemma run_pcatch {A} ch fault (m : prog A) : forall w,
   end.
 Proof.
   induction m as [a|e k IH|x]; intros w; cbn [pcatch]; try reflexivity.
+  - destruct e; try (rewrite !run_op by discriminate; destruct (step_world fault _ w) as [w1 r]; apply IH).
+    rewrite !run_choose. apply IH.
+  - destruct x; reflexivity.
+Qed.
+
+Lemma run_ptry {A} ch fault (m : prog A) : forall w,
+  run ch fault (ptry m) w =
+  match run ch fault m w with
+  | (w', OOk a) => (w', OOk (inl a))
+  | (w', OExn XErr) => (w', OOk (inr XErr))
+  | (w', OExn XPanic) => (w', OOk (inr XPanic))
+  | (w', OExn x) => (w', OExn x)
+  end.
+Proof.
+  induction m as [a|e k IH|x]; intros w; cbn [ptry]; try reflexivity.
   - destruct e; try (rewrite !run_op by discriminate; destruct (step_world fault _ w) as [w1 r]; apply IH).
     rewrite !run_choose. apply IH.
   - destruct x; reflexivity.
@@ -440,6 +523,15 @@ Section Safety.
     - destruct x; inv H; split; auto; intros o Eo; inv Eo; intros a' Ea; inv Ea.
   Qed.
 
+  Lemma triple_ptry {A} (m : prog A) Q :
+    triple m Q -> triple (ptry m) (fun o => forall a, o = inl a -> Q a).
+  Proof.
+    intros Hm ch fault w w' out I H. rewrite run_ptry in H.
+    destruct (run ch fault m w) as [w1 [a|x]] eqn:E; destruct (Hm _ _ _ _ _ I E) as [I1 HQ].
+    - inv H. split; auto. intros o Eo; inv Eo. intros a' Ea; inv Ea. auto.
+    - destruct x; inv H; split; auto; intros o Eo; inv Eo; intros a' Ea; inv Ea.
+  Qed.
+
   Lemma triple_mapP {A B} (f : A -> prog B) (l : list A) :
     (forall x, triple (f x) (fun _ => True)) -> triple (mapP f l) (fun _ => True).
   Proof.
@@ -456,7 +548,7 @@ Section Safety.
   (* ---- single steps ---- *)
 
   Definition read_only (e : eff) : bool :=
-    match e with EExists _ | EIsDir _ | ECleanedAbs _ | EReadFile _ | EWalk _ => true | _ => false end.
+    match e with EExists _ | ECleanedAbs _ | EReadFile _ | EWalk _ => true | _ => false end.
 
   Lemma exec_read_only e s : read_only e = true -> fst (exec e s) = s.
   Proof.
@@ -1136,12 +1228,12 @@ Proof.
   eapply triple_mut; [right; left; reflexivity | |].
   { rewrite query_show by (rewrite good_path_app, Gnd, Gr; auto). apply is_prefix_app. }
   intros r0.
-  assert (Hcl : triple nd s0 (Op (ERemoveAll (show_abs nd)) (fun _ => Throw XErr : prog string)) (fun _ => True)).
-  { apply triple_remove; [apply query_show; auto|]. intros; apply triple_throw. }
-  destruct r0; try exact Hcl.
+  assert (Hcl : forall x, triple nd s0 (Op (ERemoveAll (show_abs nd)) (fun _ => Throw x : prog string)) (fun _ => True)).
+  { intros x. apply triple_remove; [apply query_show; auto|]. intros; apply triple_throw. }
+  destruct r0; try exact (Hcl XErr).
   eapply triple_bind.
-  { apply triple_pcatch. apply triple_localize; auto. exists r. auto. }
-  intros [u|] _; [apply triple_ret; auto | exact Hcl].
+  { apply triple_ptry. apply triple_localize; auto. exists r. auto. }
+  intros [u|x] _; [apply triple_ret; auto | exact (Hcl x)].
 Qed.
 
 Theorem run_safe orc fuel target scope newdir s0 :
@@ -1211,7 +1303,7 @@ Qed.
 
 Lemma step_ro_inv fault e w w1 r :
   step_world fault e w = (w1, r) -> read_only e = true ->
-  w_fs w1 = w_fs w /\ (r = RFail \/ r = snd (exec e (w_fs w))).
+  w_fs w1 = w_fs w /\ (r = fail_res e \/ r = snd (exec e (w_fs w))).
 Proof.
   intros H R. unfold step_world in H.
   destruct (fallible e && fault_hit fault (w_n w))%bool.
@@ -1278,7 +1370,8 @@ Lemma step_mkdir_cases fault e p w :
   (snd (step_world fault e w) = RFail /\ w_fs (fst (step_world fault e w)) = w_fs w).
 Proof.
   intros He. unfold step_world.
-  destruct (fallible e && fault_hit fault (w_n w))%bool; [right; auto|].
+  destruct (fallible e && fault_hit fault (w_n w))%bool;
+    [right; destruct He; subst; auto|].
   assert (X : exec e (w_fs w) = match fs_mkdir (w_fs w) p with Some s' => (s', RUnit) | None => (w_fs w, RFail) end)
     by (destruct He; subst; reflexivity).
   rewrite X. destruct (fs_mkdir (w_fs w) p); cbn; auto.
@@ -1346,18 +1439,51 @@ Proof.
   - inv H. exfalso. eapply pcatch_not_err; eauto.
 Qed.
 
-(* Run after NewLoader: an error return leaves no newDir *)
-Lemma tail_cleanup orc ch fault fuel sc troot nd w w' :
-  run ch fault (localize_tail orc fuel (sc, troot, nd)) w = (w', OExn XErr) ->
+Lemma ptry_not_caught {A} ch fault (m : prog A) w w' x :
+  run ch fault (ptry m) w = (w', OExn x) -> x <> XErr /\ x <> XPanic.
+Proof.
+  rewrite run_ptry. destruct (run ch fault m w) as [w1 [a|[| | | |]]]; intros H; inv H; split; discriminate.
+Qed.
+
+(* programs whose only failure mode is the error return (no panic, no exit): createNewDir *)
+Inductive err_only {A} : prog A -> Prop :=
+| eo_ret a : err_only (Ret a)
+| eo_throw : err_only (Throw XErr)
+| eo_op e k : (forall r, err_only (k r)) -> err_only (Op e k).
+
+Lemma err_only_out {A} ch fault (m : prog A) : err_only m ->
+  forall w w' x, run ch fault m w = (w', OExn x) -> x = XErr.
+Proof.
+  induction 1 as [a| |e k Hk IH]; intros w w' x H0.
+  - cbn in H0. inv H0.
+  - cbn in H0. inv H0. reflexivity.
+  - destruct e; try (rewrite run_op in H0 by discriminate; destruct (step_world fault _ w) as [w1 r]; eapply IH; eauto).
+    rewrite run_choose in H0. eapply IH; eauto.
+Qed.
+
+Lemma err_only_confirm p : err_only (confirm_dir p).
+Proof.
+  unfold confirm_dir. destruct (String.eqb p ""); try constructor.
+  intros r; destruct r; try constructor. destruct (String.eqb f ""); constructor.
+Qed.
+
+Lemma err_only_bind {A B} (m : prog A) (f : A -> prog B) :
+  err_only m -> (forall a, err_only (f a)) -> err_only (pbind m f).
+Proof. induction 1; cbn; auto; constructor; auto. Qed.
+
+(* Run after NewLoader: an error return AND a panic leave no newDir *)
+Lemma tail_cleanup orc ch fault fuel sc troot nd w w' x :
+  x = XErr \/ x = XPanic ->
+  run ch fault (localize_tail orc fuel (sc, troot, nd)) w = (w', OExn x) ->
   (forall e, In e (w_trace w') -> ev_op e = ORemoveAll -> ev_ok e = true) ->
   exists_path (w_fs w') nd = false.
 Proof.
-  intros H Hrm. unfold localize_tail in H. rewrite run_op in H by discriminate.
+  intros Hx H Hrm. unfold localize_tail in H. rewrite run_op in H by discriminate.
   destruct (step_world fault (EMkdirAll _) w) as [w1 r].
-  assert (Cl : forall w2 w3, run ch fault (Op (ERemoveAll (show_abs nd)) (fun _ => Throw XErr : prog string)) w2 = (w3, OExn XErr) ->
+  assert (Cl : forall y w2 w3 z, run ch fault (Op (ERemoveAll (show_abs nd)) (fun _ => Throw y : prog string)) w2 = (w3, OExn z) ->
                (forall e, In e (w_trace w3) -> ev_op e = ORemoveAll -> ev_ok e = true) ->
                exists_path (w_fs w3) nd = false).
-  { intros w2 w3 H2 Hrm2. rewrite run_op in H2 by discriminate.
+  { intros y w2 w3 z H2 Hrm2. rewrite run_op in H2 by discriminate.
     pose proof (step_trace fault (ERemoveAll (show_abs nd)) w2) as T.
     pose proof (step_remove_ok fault (show_abs nd) w2) as K.
     destruct (step_world fault (ERemoveAll (show_abs nd)) w2) as [w4 r4]. cbn [fst snd] in T, K.
@@ -1367,34 +1493,49 @@ Proof.
     unfold exists_path. eapply remove_all_gone; eauto. }
   destruct r; try (eapply Cl; eauto; fail).
   rewrite run_bind in H.
-  destruct (run ch fault (pcatch _) w1) as [w2 [[u|]|x]] eqn:E.
+  destruct (run ch fault (ptry _) w1) as [w2 [[u|y]|z]] eqn:E.
   - cbn in H. inv H.
   - eapply Cl; eauto.
-  - inv H. exfalso. eapply pcatch_not_err; eauto.
+  - inv H. exfalso. destruct (ptry_not_caught _ _ _ _ _ _ E) as [N1 N2]. destruct Hx; congruence.
 Qed.
 
-(* ALL-OR-NOTHING for error returns (since the repair d268200): whenever localize RETURNS an error —
-   for every fault position, also the early ones — and no RemoveAll call failed, newDir (which was
-   not there before) does not exist afterwards. *)
-Theorem all_or_nothing_partial orc ch fuel target scope newdir fault s w :
+(* createNewDir neither panics nor exits: its failures are error returns *)
+Lemma create_err_only x0 : err_only (prelude_create x0).
+Proof.
+  destruct x0 as [[sc troot] raw]. unfold prelude_create.
+  apply err_only_bind; [unfold op_unit; constructor; intros r; destruct r; constructor|]. intros _.
+  apply err_only_bind.
+  - assert (E : forall A (m : prog A), err_only m -> err_only (pcatch m)).
+    { intros A m Hm. induction Hm; cbn; constructor; auto. }
+    apply E, err_only_confirm.
+  - intros r. destruct r; constructor. intros; constructor.
+Qed.
+
+(* ALL-OR-NOTHING for error returns AND panics (since the repairs d268200 and 113a8f3): whenever
+   localize returns an error or panics — for every fault position — and no RemoveAll call failed,
+   newDir (which was not there before) does not exist afterwards.  Only the process exit
+   (log.Fatalf) is left out. *)
+Theorem all_or_nothing_partial orc ch fuel target scope newdir fault s w x :
   fs_wf s ->
+  x = XErr \/ x = XPanic ->
   exists_path s (newdir_path target newdir) = false ->
-  run_localize orc ch fuel target scope newdir fault s = (w, OExn XErr) ->
+  run_localize orc ch fuel target scope newdir fault s = (w, OExn x) ->
   (forall e, In e (w_trace w) -> ev_op e = ORemoveAll -> ev_ok e = true) ->
   exists_path (w_fs w) (newdir_path target newdir) = false.
 Proof.
-  intros W Fr H Hrm. unfold run_localize, localize_run, localize_prelude in H.
+  intros W Hx Fr H Hrm. unfold run_localize, localize_run, localize_prelude in H.
   rewrite !run_bind in H.
-  destruct (run ch fault (prelude_checks target scope newdir) (world0 s)) as [w0 [[[sc troot] raw]|x]] eqn:E0.
+  destruct (run ch fault (prelude_checks target scope newdir) (world0 s)) as [w0 [[[sc troot] raw]|x0]] eqn:E0.
   - pose proof (ro_only_fs _ _ _ (ro_only_checks target scope newdir) _ _ _ E0) as F0. cbn in F0.
     destruct (triple_checks _ s target scope newdir eq_refl _ _ _ _ _ (inv_world0 _ _ W) E0) as [I0 P].
     destruct (P _ eq_refl) as (Eraw & Gsc & Hr).
-    destruct (run ch fault (prelude_create (sc, troot, raw)) w0) as [w1 [[[sc' troot'] nd']|x]] eqn:E1.
+    destruct (run ch fault (prelude_create (sc, troot, raw)) w0) as [w1 [[[sc' troot'] nd']|x1]] eqn:E1.
     + destruct (triple_create _ s sc troot raw Eraw _ _ _ _ _ I0 E1) as [_ P1].
       destruct (P1 _ eq_refl) as (-> & -> & -> & G).
       eapply tail_cleanup; eauto.
-    + injection H as <- ->. rewrite <- Eraw. eapply create_cleanup; eauto. rewrite Eraw, F0. exact Fr.
-  - injection H as <- ->. rewrite (ro_only_fs _ _ _ (ro_only_checks target scope newdir) _ _ _ E0). exact Fr.
+    + injection H as <- <-. pose proof (err_only_out _ _ _ (create_err_only _) _ _ _ E1) as ->.
+      rewrite <- Eraw. eapply create_cleanup; eauto. rewrite Eraw, F0. exact Fr.
+  - injection H as <- <-. rewrite (ro_only_fs _ _ _ (ro_only_checks target scope newdir) _ _ _ E0). exact Fr.
 Qed.
 
 Corollary writes_confined_in orc ch fuel target scope newdir fault s w out :
@@ -1491,7 +1632,8 @@ Lemma step_mut_res fault e w w1 r :
   exec e (w_fs w) = (w_fs w1, RUnit).
 Proof.
   intros He H ->. unfold step_world in H.
-  destruct (fallible e && fault_hit fault (w_n w))%bool; [inv H|].
+  destruct (fallible e && fault_hit fault (w_n w))%bool;
+    [destruct He as [[p ->]|[p [c ->]]]; cbn in H; inv H|].
   destruct (exec e (w_fs w)) as [s' r'] eqn:E. inv H. reflexivity.
 Qed.
 
@@ -1563,7 +1705,6 @@ Proof.
   intros Hc [Hm Hr]. unfold step_world in *.
   destruct (fallible e && fault_hit fault (w_n w))%bool; [reflexivity|].
   destruct e; cbn [exec] in *.
-  - reflexivity.
   - reflexivity.
   - destruct (fs_mkdir (w_fs w) p); cbn in *; auto. specialize (Hm eq_refl). discriminate.
   - destruct (fs_mkdir (w_fs w) p); cbn in *; auto. specialize (Hm eq_refl). discriminate.
